@@ -10,6 +10,8 @@ Lemma decode_enum_eq : forall ts, decode (TEnum ts) = bind (dec_varint W32) (fun
 Proof. reflexivity. Qed.
 Lemma wt_tuple_eq : forall ts vs, wt (TTuple ts) (VTuple vs) = wt_tuple ts vs.
 Proof. reflexivity. Qed.
+Lemma wt_enum_eq : forall ts i v, wt (TEnum ts) (VVariant i v) = ((i <? wmax W32) && wt_pick v ts i).
+Proof. reflexivity. Qed.
 
 Section TyInd.
   Variable P : ty -> Prop.
@@ -24,6 +26,7 @@ Section TyInd.
   Hypothesis HSeq : forall t, P t -> P (TSeq t).
   Hypothesis HTuple : forall ts, Forall P ts -> P (TTuple ts).
   Hypothesis HEnum : forall ts, Forall P ts -> P (TEnum ts).
+  Hypothesis HDelay : forall k, (forall u, P (k u)) -> P (TDelay k).
   Fixpoint ty_ind' (t : ty) : P t :=
     match t with
     | TU8 => HU8 | TBool => HBool | TUInt w => HUInt w | TSInt w => HSInt w | TF64 => HF64
@@ -34,6 +37,7 @@ Section TyInd.
                                  match ts with [] => Forall_nil P | t' :: ts' => Forall_cons t' (ty_ind' t') (f ts') end) ts)
     | TEnum ts => HEnum ts ((fix f (ts : list ty) : Forall P ts :=
                                match ts with [] => Forall_nil P | t' :: ts' => Forall_cons t' (ty_ind' t') (f ts') end) ts)
+    | TDelay k => HDelay k (fun u => ty_ind' (k u))
     end.
 End TyInd.
 
@@ -68,6 +72,13 @@ Proof.
   destruct (j =? 0); [inversion H; left; reflexivity|right; eapply IH; eassumption].
 Qed.
 
+Lemma wt_pick_nth : forall v ts j, wt_pick v ts j = true -> exists t, nthN ts j = Some t /\ wt t v = true.
+Proof.
+  intros v ts. induction ts as [|t0 ts IH]; intros j H; [discriminate|].
+  change (wt_pick v (t0 :: ts) j) with (if j =? 0 then wt t0 v else wt_pick v ts (N.pred j)) in H.
+  cbn [nthN]. destruct (j =? 0); [exists t0; split; [reflexivity|assumption]|apply IH; assumption].
+Qed.
+
 Lemma dec_pick_nth : forall i ts j t, nthN ts j = Some t -> dec_pick i ts j = fmap (VVariant i) (decode t).
 Proof.
   intros i ts. induction ts as [|t0 ts IH]; intros j t H; cbn [nthN] in H; [discriminate|].
@@ -79,7 +90,8 @@ Qed.
 Theorem universe_roundtrip : forall t v, wt t v = true ->
   forall r, run (decode t) (encode v ++ r) = Ok v (length (encode v)).
 Proof.
-  intros t. change (rt t). induction t using ty_ind'; intros v W r; destruct v; cbn [wt] in W; try discriminate.
+  intros t. change (rt t). induction t using ty_ind'; intros v W r; try (exact (H tt v W r));
+    destruct v; cbn [wt] in W; try discriminate.
   - (* u8 *) cbn [decode encode app]. rewrite run_fmap, run_read_byte. reflexivity.
   - (* bool *) cbn [decode encode app]. rewrite run_fmap. unfold dec_bool. rewrite run_read_cons.
     destruct b; cbn; rewrite run_ret; reflexivity.
@@ -105,8 +117,9 @@ Proof.
     + intros v Hin r'. apply IHt. rewrite forallb_forall in F. apply F. assumption.
   - (* tuple *) rewrite decode_tuple_eq. change (wt_tuple ts vs = true) in W.
     cbn [encode]. rewrite run_fmap, (dec_tuple_ok ts H vs W). reflexivity.
-  - (* enum *) apply andb_true_iff in W. destruct W as [I W].
-    destruct (nthN ts idx) as [t'|] eqn:E; [|discriminate].
+  - (* enum *) change (((idx <? wmax W32) && wt_pick v ts idx) = true) in W.
+    apply andb_true_iff in W. destruct W as [I W].
+    destruct (wt_pick_nth _ _ _ W) as [t' [E W']]. clear W. rename W' into W.
     rewrite decode_enum_eq. cbn [encode]. rewrite <- app_assoc.
     rewrite (run_bind_ok _ _ _ _ _ _ idx (varint_roundtrip W32 idx _ (proj1 (N.ltb_lt _ _) I))).
     rewrite (dec_pick_nth idx ts idx t' E), run_fmap.
